@@ -14,21 +14,27 @@ family "pipe"   a generated record (islands of scripted gene types at boundary p
                 (rebuilt from the same description, or read back from the written results file exactly
                 as main.read_data does) regenerates them (y, j2) and a third run regenerates from j2 (j3).
                 Required: j1 == j2 == j3 byte for byte per module, and the annotated records of run 1
-                and run 2 carry the same features/qualifiers per feature type.
+                and run 2 carry the same features/qualifiers for every feature type that module results
+                add (protocluster, proto_core, subregion, CDS annotations, aSDomain, CDS_motif, aSModule,
+                PFAM_domain, misc_feature; candidate clusters and regions are derived by the record and
+                belong to other properties).  The reuse run is also done the way `--reuse-results` is
+                normally used: without the optional module flags (saved results must be regenerated and kept).
 family "guard"  after run 1 one thing is changed before the reuse run: schema version inside the saved
-                JSON, the record id, strictness / rule subset / fungal multipliers, saved hmmer thresholds
-                on both sides of (and equal to) the module's limits, pfam database version, tta threshold
-                on both sides of (and equal to) the GC content.  Required: the saved results are refused
-                (exception), discarded (module reruns / no results), or -- where the module documents a
-                reuse under the new setting (tta threshold, hmmer refilter) -- the outcome is what a fresh
-                run under the new settings gives (tta) / contains nothing that violates the new limits (hmmer).
+                JSON (higher and lower), the record id, strictness / rule subset / saved rule names / fungal
+                multipliers, saved hmmer thresholds stricter than the module's limits, pfam database
+                version.  Required: the saved results are refused (exception) or discarded (nothing
+                regenerated, or the module reran and the regenerated object is not the final one).
+                Two documented reuses under a changed setting are checked against their meaning instead:
+                tta threshold (saved/new each below, equal to, above the GC content): refusal, discard,
+                or exactly the JSON a fresh run under the new threshold gives; hmmer results saved with
+                more lenient thresholds (hits on both sides of and on the limits): what is kept is a subset
+                of the saved hits, none outside the current limits, labelled with limits not more lenient.
 family "direct" RuleDetectionResults built directly from CDSResults whose definition-domain sets are
                 chosen in-process so that their iteration order is not stable under list(set(list(s)))
                 (makes the hash-seed dependent finding C11-F1 deterministic).
 """
 from __future__ import annotations
 
-import copy
 import json as std_json
 import os
 import shutil
@@ -39,10 +45,11 @@ from unittest import mock
 
 from bounded import _c11_world as W
 
-RULE = ("pipe: explicit finite list = (island type x position pattern x strand) exhaustively, with sideload mode, "
-        "tta threshold relation, taxon and history (rebuilt record / results file read back) cycled over it; a "
-        "(case, module) evaluation is non-trivial when the module produced non-empty results in run 1 AND run 2 "
-        "really regenerated them from JSON (its run_on_record got previous results); distinct by (case, module). "
+RULE = ("pipe: explicit finite list = (island type x position pattern x strand) exhaustively plus island pairs at two "
+        "distances, with sideload mode, tta threshold relation, taxon, strictness, history (rebuilt record / results "
+        "file read back) and reuse flags (same / optional module flags absent) cycled over it; a (case, module) "
+        "evaluation is non-trivial when the module produced non-empty results in run 1 AND run 2 really regenerated "
+        "them from JSON (regenerate_previous_results returned an object); distinct by (case, module). "
         "guard: explicit list of (base record x changed thing); non-trivial when run 1 produced non-empty results "
         "for the guarded module.  thorough adds the full product of the secondary dimensions and seeded random "
         "multi-island records.")
@@ -76,6 +83,7 @@ SIDES = ["none", "simple", "cds", "file", "file+simple"]
 TTAS = ["below", "eq", "above"]
 HISTS = ["rebuilt", "file"]
 STRICTNESS = ["relaxed", "strict", "relaxed", "loose", "relaxed"]
+FLAGS = ["same", "same", "bare", "same"]   # bare: the reuse run is started without the optional module flags
 
 
 def _island_genes(island: str, anchor: int, strand: int, length: int, circular: bool,
@@ -126,14 +134,14 @@ def _single_spec(island: str, position: str, strand: int, circular: bool) -> dic
     genes = _island_genes(island, anchor, strand, length, circular, gap_after)
     # filler genes well away from the island: one plain, one with pfam hits only
     occupied = [(g[0], g[0] + W.gene_len(g[2])) for g in genes]
-    for offset, gtype in ((length // 4, "plain"), (3 * length // 4, "pfam_only"), (length // 2 + 9000, "plain")):
+    for offset, gtype in ((length // 4, "plain"), (3 * length // 4, "pfam_only"), (length // 2 + 9000, "weakhit")):
         start = (anchor + offset) % length
         end = start + W.gene_len(gtype)
         if end > length:
             continue
         if all(end + 200 < lo or start > hi + 200 for lo, hi in occupied) and \
                 all(not (lo >= length and start < hi - length + 200) for lo, hi in occupied):
-            genes.append([start, 1 if gtype == "plain" else -1, gtype])
+            genes.append([start, -1 if gtype == "pfam_only" else 1, gtype])
             occupied.append((start, end))
     genes.sort(key=lambda g: g[0])
     return {"L": length, "circ": int(circular), "sd": 1 + len(island) % 2, "gc": 70, "genes": genes}
@@ -176,9 +184,9 @@ def _pipe_cases(tier: str) -> Iterator[dict]:
                       for k, (side, tta, hist, taxon) in enumerate(
                           (side, tta, hist, taxon) for side in SIDES for tta in TTAS for hist in HISTS
                           for taxon in (("bacteria",) if spec["circ"] else ("bacteria", "fungi")))]
-        for side, tta, hist, taxon, strictness in combos:
+        for k, (side, tta, hist, taxon, strictness) in enumerate(combos):
             yield {"family": "pipe", "label": label, "rec": spec, "side": side, "tta": tta, "hist": hist,
-                   "taxon": taxon, "strictness": strictness}
+                   "taxon": taxon, "strictness": strictness, "flags": FLAGS[(index + k) % len(FLAGS)]}
         index += 1
 
 
@@ -195,10 +203,16 @@ def _sideload_settings(case: dict, record: Any, scratch: str) -> dict:
     spec = case["rec"]
     length = spec["L"]
     circular = bool(spec["circ"])
-    plain = [f"g{i}" for i, g in enumerate(spec["genes"]) if g[2] in ("plain", "pfam_only")]
+    plain = [f"g{i}" for i, g in enumerate(spec["genes"]) if g[2] in ("weakhit", "plain", "pfam_only")]
+    plain.sort(key=lambda name: spec["genes"][int(name[1:])][2] != "weakhit")
     cdses = {cds.get_name(): cds for cds in record.get_cds_features()}
     inner = [cds for cds in cdses.values() if len(cds.location.parts) == 1]
     target = inner[len(inner) // 2]
+    for index, gene in enumerate(spec["genes"]):
+        # prefer a gene with hits that define no protocluster: gives CDS results outside protoclusters
+        if gene[2] == "weakhit" and len(cdses[f"g{index}"].location.parts) == 1:
+            target = cdses[f"g{index}"]
+            break
     if side in ("simple", "file+simple"):
         start = max(0, target.location.start - 777)
         end = min(length, target.location.end + 1234)
@@ -433,6 +447,10 @@ def _eval_pipe(case: dict, scratch: str, world: W.World) -> Outcome:
         return [("skipped-original-run-failed", True, False, _tb(err), None)]
 
     # ---- reuse run -------------------------------------------------------------------------
+    if case.get("flags") == "bare":
+        # like `antismash --reuse-results x.json`: the optional modules (sideloader, full_hmmer,
+        # cluster_hmmer) are not enabled again; their saved results must be regenerated and kept
+        settings = dict(settings, bare=True)
     calls_before = dict(world.calls)
     try:
         with world.patches(), _Spy() as spy:
@@ -451,7 +469,7 @@ def _eval_pipe(case: dict, scratch: str, world: W.World) -> Outcome:
         if name not in json1:
             continue
         key = {"case": case, "module": short}
-        nontrivial = _nonempty(short, json1[name]) and spy.reused.get(name, name in results2)
+        nontrivial = _nonempty(short, json1[name]) and spy.regenerated.get(name) is not None
         if name not in json2:
             out.append((f"results-kept[{short}]", False, nontrivial,
                         "results existed after run 1 but the reuse run (same settings) has none", key))
@@ -782,9 +800,10 @@ def _all_cases(tier: str) -> Iterator[dict]:
 
 def shards(tier: str, seed: int) -> list:
     W.am()
-    out = [{"family": "all", "k": k, "n": N_SHARDS} for k in range(N_SHARDS)]
+    out = []
     if tier == "thorough":
-        out += [{"family": "random", "k": k, "n": 16} for k in range(16)]
+        out += [{"family": "random", "k": k, "n": 16, "cases": 120} for k in range(16)]
+    out += [{"family": "all", "k": k, "n": N_SHARDS} for k in range(N_SHARDS)]
     return out
 
 
@@ -842,7 +861,7 @@ def _random_case(rng: Any) -> dict:
             "genes": sorted(genes, key=lambda g: g[0])}
     return {"family": "pipe", "label": "random:" + "+".join(islands), "rec": spec, "side": rng.choice(SIDES),
             "tta": rng.choice(TTAS), "hist": rng.choice(HISTS), "taxon": "bacteria" if circular else
-            rng.choice(("bacteria", "fungi")), "strictness": rng.choice(STRICTNESS)}
+            rng.choice(("bacteria", "fungi")), "strictness": rng.choice(STRICTNESS), "flags": rng.choice(FLAGS)}
 
 
 def run_shard(shard: dict, run: Any) -> None:
@@ -857,7 +876,9 @@ def run_shard(shard: dict, run: Any) -> None:
                         return
                     _report(case, run, root)
         else:
-            while not run.out_of_time():
+            for _ in range(shard["cases"]):
+                if run.out_of_time():
+                    return
                 _report(_random_case(run.rng), run, root)
     finally:
         shutil.rmtree(root, ignore_errors=True)
